@@ -1,3 +1,57 @@
+import NsyncVerif.Model.MuXDriver
+/-
+  `replay <layer>…` : reads a harness log on stdin, feeds every line to the selected layers' acceptors.
+  Output: one line per rejection (`REJECT exec=<n> line=<k> <reason> | <log line>`), the first rejection
+  of an execution stops that layer for the rest of that execution; a final `SUMMARY` line and `COV`
+  lines with transition coverage.
+-/
+open NsyncVerif
+
+structure St where
+  mux : MuX.Driver.DState
+  muxDead : Bool
+  execNo : Nat
+  lineNo : Nat
+  accepted : Nat
+  skipped : Nat
+  rejects : Nat
+  rejectedExecs : Nat
+  cov : List (String × Nat)
+
+def mergeCov (a b : List (String × Nat)) : List (String × Nat) :=
+  b.foldl (fun acc (k, n) =>
+    match acc.find? (fun p => p.1 == k) with
+    | some p => (k, p.2 + n) :: acc.filter (fun q => q.1 != k)
+    | none => (k, n) :: acc) a
+
+partial def loop (h : IO.FS.Stream) (layers : List String) (st : St) : IO St := do
+  let line ← h.getLine
+  if line.isEmpty then
+    return { st with cov := mergeCov st.cov st.mux.cov }
+  let line := line.trimAsciiEnd.toString
+  let st := { st with lineNo := st.lineNo + 1 }
+  if line.startsWith "# begin" then
+    let cov := mergeCov st.cov st.mux.cov
+    loop h layers { st with mux := MuX.Driver.init, muxDead := false, execNo := st.execNo + 1, cov := cov }
+  else if line.startsWith "#" then
+    loop h layers st
+  else
+    let mut st := st
+    if layers.contains "mux" && !st.muxDead then
+      let (d, out) := MuX.Driver.step st.mux line
+      if out == "ok" then st := { st with mux := d, accepted := st.accepted + 1 }
+      else if out == "skip" then st := { st with mux := d, skipped := st.skipped + 1 }
+      else
+        IO.println s!"REJECT exec={st.execNo} line={st.lineNo} {out} | {line}"
+        st := { st with muxDead := true, rejects := st.rejects + 1, rejectedExecs := st.rejectedExecs + 1 }
+    loop h layers st
+
 def main (args : List String) : IO UInt32 := do
-  IO.eprintln s!"replay: no layer selected {args}"
-  return 2
+  let stdin ← IO.getStdin
+  let st ← loop stdin args
+    { mux := MuX.Driver.init, muxDead := false, execNo := 0, lineNo := 0, accepted := 0, skipped := 0,
+      rejects := 0, rejectedExecs := 0, cov := [] }
+  for (k, n) in st.cov do
+    IO.println s!"COV {k} {n}"
+  IO.println s!"SUMMARY execs={st.execNo} lines={st.lineNo} accepted={st.accepted} skipped={st.skipped} rejects={st.rejects}"
+  return (if st.rejects == 0 then 0 else 1)
